@@ -432,6 +432,13 @@ def rule_pred(ctx: Ctx):
                 rep.check(ok, "C09.pred", b.loc(), "disconnected = all states minus those visited from the initial state", fn.key,
                           f"disconnected = {show(x)}")
                 outcomes.setdefault(b.x["taken"], set()).add(_outcome(p))
+        if p.kind in ("return", "fall"):
+            decided = any(isinstance(expand(b.term, p.events), ast.BinOp) and isinstance(expand(b.term, p.events).op, ast.Sub) and b.x["taken"] is False
+                          for b in p.of("branch"))
+            if not decided:
+                rep.violation("C09.pred", fn.loc(), "a class is accepted as connected only after `all states - visited from the initial state` was found "
+                              "empty: this path accepts it on other grounds", fn.key,
+                              "; ".join(f"{show(expand1(b.term, p.events))[:70]}={b.x['taken']}" for b in p.of("branch"))[:240] or "no test")
     if not seen:
         rep.unrecognised("C09.pred", fn.loc(), "disconnected-state computation is not `set(all) - set(visited)`")
     rep.check(outcomes.get(True) == {"raise:InvalidDefinition"} and outcomes.get(False) == {"pass"}, "C09.pred", fn.loc(),
